@@ -1446,6 +1446,8 @@ def run(tier, seed, replay=None):
     # corpus: kept reproducers (raw harness lines); only crash / hang / control observables apply
     cdir = os.path.join(core.HERE, "corpus", PROP)
     cfiles = sorted(os.listdir(cdir)) if os.path.isdir(cdir) and not replay else []
+    if quick:
+        cfiles = [f for f in cfiles if "_thorough_" not in f]      # scenarios with long real-time waits
     if replay and not rp.get("sessions") and rp.get("harness_lines") and not rp.get("flood"):
         cfiles = [replay]
     for cf_ in cfiles:
